@@ -105,8 +105,9 @@ func (fr *Frame) doCallWith(c *ssa.CallCommon, instr ssa.Instruction, fnVal Val,
 	e := vc.E
 	rt := resultType(c)
 
-	if b, ok := c.Value.(*ssa.Builtin); ok {
-		return fr.builtin(b, c, args, st, pc, pos, rt)
+	bi, isBuiltin := c.Value.(*ssa.Builtin)
+	if isBuiltin && (vc.RootFC == nil || len(vc.RootFC.Of("oncall")) == 0) {
+		return fr.builtin(bi, c, args, st, pc, pos, rt)
 	}
 	callee := c.StaticCallee()
 	var bindings []Val
@@ -172,6 +173,9 @@ func (fr *Frame) doCallWith(c *ssa.CallCommon, instr ssa.Instruction, fnVal Val,
 	var res Val
 	npc := pc
 	switch {
+	case isBuiltin:
+		// builtins (close, append, ...) are visible to `on call builtin.<name>` hooks
+		res, npc = fr.builtin(bi, c, args, st, pc, pos, rt)
 	case callee != nil:
 		res, npc = fr.staticCall(callee, bindings, c, args, st, pc, pos, rt, name)
 	case c.IsInvoke():
@@ -199,6 +203,12 @@ func (fr *Frame) doCallWith(c *ssa.CallCommon, instr ssa.Instruction, fnVal Val,
 			// cancel function of a context.With* call: context-package state only
 			vc.UsedAssumed["context cancel functions have no effect on program state"] = true
 			res = vc.freshResult("dyn", rt)
+			break
+		}
+		if isContextCancelFunc(c.Value.Type()) {
+			// context.CancelFunc / CancelCauseFunc: cancels a context (an event), no effect on program state
+			vc.UsedAssumed["context cancel functions have no effect on program state"] = true
+			res = vc.freshResult("cancel", rt)
 			break
 		}
 		if strings.HasSuffix(name, ".Exit") {
@@ -252,6 +262,13 @@ func (fr *Frame) calleeDeclaredPure(name string) bool {
 		if c.Kind == "calleepure" && nameMatches(c.Callee, name) {
 			return true
 		}
+	}
+	return false
+}
+
+func isContextCancelFunc(t types.Type) bool {
+	if n, ok := t.(*types.Named); ok && n.Obj().Pkg() != nil && n.Obj().Pkg().Path() == "context" {
+		return n.Obj().Name() == "CancelFunc" || n.Obj().Name() == "CancelCauseFunc"
 	}
 	return false
 }
@@ -731,8 +748,16 @@ func freshOnHeap(e Expr) bool {
 				switch a := c.Args[0].(type) {
 				case *EIdent:
 				case *ECall:
-					// fresh(addr(result.f)): a by-value part of a returned object (marked alive with it)
-					if id2, ok := a.Fun.(*EIdent); !ok || id2.Name != "addr" {
+					// fresh(addr(result.f)): a by-value part of a returned object (marked alive with it);
+					// fresh(as(result, *T)): the result itself, unboxed
+					id2, ok := a.Fun.(*EIdent)
+					switch {
+					case ok && id2.Name == "addr":
+					case ok && id2.Name == "as" && len(a.Args) == 2:
+						if _, plain := a.Args[0].(*EIdent); !plain {
+							found = true
+						}
+					default:
 						found = true
 					}
 				default:
@@ -741,6 +766,29 @@ func freshOnHeap(e Expr) bool {
 			}
 		}
 	})
+	return found
+}
+
+// ensuresFreshInHeap: some `ensures` of fc applies fresh() to something other than a plain result name.
+func ensuresFreshInHeap(fc *FuncContract) bool {
+	found := false
+	for _, cl := range fc.Of("ensures") {
+		walkExpr(cl.Expr, func(e Expr) {
+			if c, ok := e.(*ECall); ok {
+				if id, ok := c.Fun.(*EIdent); ok && id.Name == "fresh" && len(c.Args) == 1 {
+					arg := c.Args[0]
+					if a, ok := arg.(*ECall); ok && len(a.Args) == 2 {
+						if aid, ok := a.Fun.(*EIdent); ok && aid.Name == "as" {
+							arg = a.Args[0] // fresh(as(result, *T)): still the result itself
+						}
+					}
+					if _, plain := arg.(*EIdent); !plain {
+						found = true
+					}
+				}
+			}
+		})
+	}
 	return found
 }
 
@@ -810,6 +858,19 @@ func (fr *Frame) builtin(b *ssa.Builtin, c *ssa.CallCommon, args []Val, st *Stat
 		vc.havocClasses(st, ms)
 		return Val{}, pc
 	case "close":
+		ch := args[0].Ts[0]
+		ccl := vc.E.classChanClosed(c.Args[0].Type())
+		h := vc.heapGet(st, ccl, sortChanClosed)
+		if fr.nopanic {
+			what := exprName(c.Args[0])
+			g1 := Not(Eq(ch, BV(0, 64)))
+			vc.oblige("nil", FuncKey(fr.fn)+"/close/nil/"+what, fr.tags, pc, g1, pos, "close of nil channel "+what)
+			vc.assume(pc, g1)
+			g2 := Not(Sel(h, ch))
+			vc.oblige("panic", FuncKey(fr.fn)+"/close/closed/"+what, fr.tags, pc, g2, pos, "close of closed channel "+what)
+			vc.assume(pc, g2)
+		}
+		vc.heapSet(st, ccl, sortChanClosed, Sto(h, ch, True))
 		return Val{}, pc
 	case "panic":
 		if fr.nopanic {
